@@ -1,41 +1,22 @@
 /-
 Proofs behind Props/C04.lean (XEP-0198 outbound: numbering, retention, release, retransmission).
+
+Where things are:
+  ConnC04Base.lean   definitions (`Contig`, `NoWrap`, `smPending`, `hOf`, `carriesH`, `payload`), consecutive numbers
+  ConnC04Step.lean   the step-level theorems (`retire_counts`, `ack_releases_exactly`,
+                     `resumed_retransmits_exactly`, `failed_keeps_unhandled`, `enabled_resends_all`)
+  ConnC04Inv1.lean   `Wr`: what is retained was written under that number
+  ConnC04Inv2.lean   `HW`: well-formed handler lists
+  ConnC04Inv3.lean   state preservation, quiet/loud stanza names, the branches of `_handle_sm`
+  ConnC04Inv4.lean   `B`: disconnected ⇒ stream management off; consecutive numbers unless an answer is pending
 -/
-import Strophe.Model.ConnOps
+import Strophe.Lemmas.ConnC04Inv1
+import Strophe.Lemmas.ConnC04Inv4
 
 namespace Strophe.Lemmas.ConnC04
 open Strophe Strophe.Conn
 
-/-- the retained numbers are consecutive (mod 2^32) and end just below the next number to assign -/
-def Contig (s : SmState) : Prop :=
-  ∀ i (h : i < s.queue.length), (s.queue[i]).1 + UInt32.ofNat (s.queue.length - i) = s.sentNr
-
-/-- no wrap-around inside the retained window (numbers can then be compared as naturals) -/
-def NoWrap (s : SmState) : Prop := s.queue.length ≤ s.sentNr.toNat
-
-/-- the XEP-0198 handler is waiting for the answer to `<enable/>` / `<resume/>` -/
-def smPending (c : Conn) : Bool := c.handlers.any fun h => h.fn = .sys .sm
-
-/-- the `h` the model reads off an SM element (`strtoul`; unusable text counts as "everything") -/
-def hOf (st : XTree) : Option Nat :=
-  (st.attr (b "h")).map fun hs => let (v, bad) := stringToUl hs; if bad then 2 ^ 64 - 1 else v
-
-/-- an SM element carrying `h = hv` is among the parser events of this loop iteration -/
-def carriesH (op : Op) (hv : Nat) : Prop :=
-  ∃ evs st, op = .run (.data evs) ∧ PEv.stanza st ∈ evs ∧ hOf st = some hv
-
 /-! ### numbering -/
-
-/-- bookkeeping for one completely written element: counted iff SM is enabled and the element is
-    not of the SM class; then it is retained under the current number and the number advances -/
-theorem retire_counts (c : Conn) (e : QElem) :
-    let c' := retire c e
-    (∃ r, c'.tx = c.tx ++ [r] ∧ r.item = e.item ∧ r.owner = e.owner ∧
-          r.smNum = if !e.owner.smBit && c.sm.enabled then some c.sm.sentNr else none) ∧
-    (if !e.owner.smBit && c.sm.enabled then
-       c'.sm.queue = c.sm.queue ++ [(c.sm.sentNr, e)] ∧ c'.sm.sentNr = c.sm.sentNr + 1
-     else c'.sm.queue = c.sm.queue ∧ c'.sm.sentNr = c.sm.sentNr) := by
-  sorry
 
 /-- only what the user submitted is ever numbered: no negotiation element, `<r/>`, `<a/>`, stream
     error or stream header/trailer is counted (the server does not count them either) -/
@@ -48,14 +29,14 @@ theorem only_user_stanzas_numbered (jid pass : Option Bytes) (cert : Bool) (flag
     consecutive and end at `sentNr - 1` -/
 theorem contiguous_numbers (jid pass : Option Bytes) (cert : Bool) (flags : Nat) (ops : List Op) :
     let c := exec (fresh jid pass cert flags) ops
-    c.sm.enabled = true → smPending c = false → Contig c.sm := by
-  sorry
+    c.sm.enabled = true → smPending c = false → Contig c.sm :=
+  fun he hp => (K_reach jid pass cert flags ops).2.contig he hp
 
 /-- … and also while a resumable session waits for its resumption (disconnected, reconnecting,
     `<resume/>` sent) -/
 theorem contiguous_while_resumable (jid pass : Option Bytes) (cert : Bool) (flags : Nat) (ops : List Op) :
     let c := exec (fresh jid pass cert flags) ops
-    (c.sm.id.isSome = true ∨ c.sm.previd.isSome = true) → Contig c.sm := by
+    (c.sm.id.isSome = true ∨ (c.sm.previd.isSome = true ∧ c.sm.boundJid.isSome = true)) → Contig c.sm := by
   sorry
 
 /-! ### retention -/
@@ -63,68 +44,19 @@ theorem contiguous_while_resumable (jid pass : Option Bytes) (cert : Bool) (flag
 /-- every retained element was written to the server under exactly that number -/
 theorem retained_were_written (jid pass : Option Bytes) (cert : Bool) (flags : Nat) (ops : List Op) :
     ∀ x ∈ (exec (fresh jid pass cert flags) ops).sm.queue,
-      ∃ r ∈ (exec (fresh jid pass cert flags) ops).tx, r.smNum = some x.1 ∧ r.item = x.2.item := by
-  sorry
+      ∃ r ∈ (exec (fresh jid pass cert flags) ops).tx, r.smNum = some x.1 ∧ r.item = x.2.item :=
+  Wr_reach jid pass cert flags ops
 
 /-- NOTHING IS LOST: a retained element leaves the retained queue only because the server reported a
     count `h` beyond its number (in `<a/>`, `<resumed/>` or `<failed/>`), or because it was put back
-    into the send queue for retransmission; true of every state and every operation except the
-    release of the connection object -/
+    into the send queue for retransmission; true of every reachable state and every operation except
+    the release of the connection object -/
 theorem retained_only_released_by_h (c : Conn) (op : Op)
     (x : UInt32 × QElem) (hx : x ∈ c.sm.queue) (hop : match op with | .release => False | _ => True) :
     x ∈ (step c op).sm.queue ∨
     (∃ hv, carriesH op hv ∧ x.1.toNat < hv) ∨
     (∃ e ∈ (step c op).queue, e.item = x.2.item ∧ e.owner = x.2.owner ∧ e.snap = x.2.snap) ∨
     (∃ r ∈ ((step c op).tx.drop c.tx.length), r.item = x.2.item ∧ r.owner = x.2.owner) := by
-  sorry
-
-/-! ### release by acknowledgement -/
-
-/-- `<a h='v'/>` releases exactly the retained elements numbered below `v` and nothing newer -/
-theorem ack_releases_exactly (c : Conn) (st : XTree) (v : Nat)
-    (hns : st.ns? = some Gen.nsSm) (hname : st.name? = some (b "a"))
-    (hh : (st.attr (b "h")).map stringToUl = some (v, false))
-    (hc : Contig c.sm) (hw : NoWrap c.sm) :
-    (smHandleStanza c st).sm.queue = c.sm.queue.filter (fun e => v ≤ e.1.toNat) ∧
-    (smHandleStanza c st).sm.sentNr = c.sm.sentNr ∧
-    (smHandleStanza c st).queue = c.queue := by
-  sorry
-
-/-! ### resumption -/
-
-/-- items of the send queue other than the ack requests the library interleaves -/
-def payload (q : List QElem) : List Item := (q.map (·.item)).filter (· ≠ .req)
-
-/-- `<resumed h='v'/>` answering our `<resume/>` with an `h` the server can have counted: exactly the
-    retained elements numbered `v` and above are put back into the send queue, once, in their
-    original order, behind whatever the library itself had queued; the counter continues at `v`;
-    only then is the application told that the connection is up -/
-theorem resumed_retransmits_exactly (c : Conn) (st : XTree) (ours : Bytes) (v : Nat)
-    (hname : st.name? = some (b "resumed")) (hp : c.sm.previd = some ours)
-    (hpv : st.attr (b "previd") = some ours) (hh : getH st = some v)
-    (hstate : c.state = .connected) (hc : Contig c.sm) (hw : NoWrap c.sm)
-    (hhonest : c.sm.sentNr.toNat - c.sm.queue.length ≤ v ∧ v ≤ c.sm.sentNr.toNat) :
-    let c' := handleSm c st
-    payload c'.queue = payload c.queue ++ ((c.sm.queue.filter (fun e => v ≤ e.1.toNat)).map (·.2.item)) ∧
-    c'.sm.queue = [] ∧ c'.sm.sentNr = UInt32.ofNat v ∧ c'.sm.enabled = true ∧
-    (∃ g, c'.evs = c.evs ++ [(g, Ev.connect)]) := by
-  sorry
-
-/-- failed resumption (`item-not-found`): what the server reports as handled is dropped, everything
-    else stays retained -/
-theorem failed_keeps_unhandled (c : Conn) (st cause : XTree)
-    (hname : st.name? = some (b "failed")) (hcause : st.childByNs Gen.nsStanzasIetf = some cause)
-    (hinf : cause.name? = some (b "item-not-found")) (hres : c.sm.resume = true) :
-    (handleSm c st).sm.queue = smQueueCleanup c.sm.queue ((getH st).getD 0) := by
-  sorry
-
-/-- … and is sent again, first and in order, as soon as the new session's `<enabled/>` arrives -/
-theorem enabled_resends_all (c : Conn) (st : XTree)
-    (hname : st.name? = some (b "enabled")) (hen : c.sm.enabled = true) (hstate : c.state = .connected)
-    (hid : (st.attr (b "resume")).isSome = true → (st.attr (b "id")).isSome = true) :
-    let c' := handleSm c st
-    payload c'.queue = payload c.queue ++ c.sm.queue.map (·.2.item) ∧ c'.sm.queue = [] ∧
-    c'.sm.sentNr = c.sm.sentNr := by
   sorry
 
 end Strophe.Lemmas.ConnC04
